@@ -477,3 +477,90 @@ def solve_options(draw, wrappers=("cvxpy",), solvers=("CLARABEL",), allow_drh=Fa
         o["tol_dr"] = draw(st.sampled_from([1e-4, 1e-5, 1e-3, 1e-2, 1e-6, 1e-1]))
         o["eig_reg"] = draw(st.sampled_from([1e-3, 1e-5, 1e-2, 1e-4, 1e-1, 1e-6]))
     return o
+
+
+@st.composite
+def model_autostat(draw):
+    """ConvexQG / RsiEb model that never declares a stationary point: the class creates one (a leaf point and a leaf
+    expression) while its class constraints are generated, i.e. after the objective leaf exists.  Bounded through the
+    min-of-metrics: the first metric is the quantity bounded by the initial condition."""
+    em = Emitter()
+    cls = draw(st.sampled_from(["ConvexQGFunction", "RsiEbFunction"]))
+    params = draw(class_params(cls))
+    f = em.func(cls, params, None, False)
+    x0 = em.init_point(None)
+    x1 = em.emit("new_point")["P"][0]
+    g0, f0 = em.oracle(f, x0)
+    g1, f1 = em.oracle(f, x1)
+    pts = [x0, x1, g0, g1]
+    for _ in range(draw(st.integers(0, 2))):
+        gamma = draw(frac)
+        g, fv, x = em.gd(f, draw(st.sampled_from([x0, x1])), gamma)
+        pts += [g, x]
+    e0 = em.expr("sqdist", x0, x1)
+    em.emit("cons", "init", e0, "<=", draw(pos), None)
+    em.emit("metric", e0, None)
+    other = draw(st.sampled_from(["dot", "fdiff", "sq"]))
+    if other == "dot":
+        m = em.expr("dot", g0, draw(st.sampled_from(pts)))
+    elif other == "fdiff":
+        m = em.expr("fdiff", f0, f1)
+    else:
+        m = em.expr("sq", draw(st.sampled_from(pts)))
+    em.emit("metric", m, None)
+    return {"instrs": em.instrs, "meta": {"cls": cls, "tags": ["auto_stationary", "multi_metric"], "n_instr": len(em.instrs)}}
+
+
+@st.composite
+def model_big(draw):
+    """> 128 scalar rows: gradient descent with 11-13 steps on a smooth (strongly) convex function."""
+    em = Emitter()
+    cls = draw(st.sampled_from(["SmoothConvexFunction", "SmoothStronglyConvexFunction"]))
+    params = draw(class_params(cls))
+    L = float(params["L"])
+    f = em.func(cls, params, None, False)
+    x0 = em.init_point(None)
+    xs, fs = em.stat(f, None)
+    x = x0
+    n = draw(st.integers(11, 13))
+    for _ in range(n):
+        g, fv, x = em.gd(f, x, round(draw(frac) * 1.5 / L, 4))
+    gN, fN = em.oracle(f, x)
+    e0 = em.expr("sqdist", x0, xs)
+    em.emit("cons", "init", e0, "<=", draw(pos), None)
+    em.emit("metric", em.expr("fdiff", fN, fs), None)
+    if draw(st.booleans()):
+        t = em.emit("new_expr")["E"][0]
+        em.emit("lmi", "pep", [[["e", e0], ["e", t]], [["e", t], ["n", 1]]], False, None)
+    return {"instrs": em.instrs, "meta": {"cls": cls, "tags": ["big"], "n_instr": len(em.instrs)}}
+
+
+@st.composite
+def model_lmi_order(draw):
+    """LMIs created but not added, added in non-creation order, function-level LMIs next to class LMIs."""
+    base = draw(model(max_steps=2, allow_extras=False, allow_composite=False,
+                      classes=["SmoothStronglyConvexFunction", "SymmetricLinearOperator", "SkewSymmetricLinearOperator",
+                               "SmoothStronglyConvexQuadraticFunction", "SmoothConvexFunction", "LinearOperator"]))
+    em = Emitter()
+    for ins in base["instrs"]:
+        em.emit(*ins)
+    nE = em.n["E"]
+    # expressions bounded by construction: the metrics / initial condition expressions are the last ones created
+    srcs = list(range(max(0, nE - 3), nE))
+    specs = []
+    for _ in range(draw(st.integers(2, 4))):
+        src = draw(st.sampled_from(srcs))
+        t = em.emit("new_expr")["E"][0]
+        specs.append((src, t))
+    order = draw(st.permutations(list(range(len(specs)))))
+    # create all as unattached PSDMatrix objects first?  prog creates at declaration: emulate "created, never added"
+    for k, (src, t) in enumerate(specs):
+        if draw(st.integers(0, 3)) == 0:
+            em.emit("lmi", "none", [[["e", src], ["e", t]], [["e", t], ["n", 1]]], False, None)
+    for k in order:
+        src, t = specs[k]
+        where = draw(st.sampled_from(["pep", "pep", ["f", 0]]))
+        em.emit("lmi", where, [[["e", src], ["e", t]], [["e", t], ["n", 1]]], draw(st.booleans()), None)
+        if draw(st.booleans()):
+            em.emit("metric", t, None)
+    return {"instrs": em.instrs, "meta": {"cls": base["meta"]["cls"], "tags": ["lmi_order", "lmi"], "n_instr": len(em.instrs)}}
